@@ -1,59 +1,33 @@
 #!/bin/bash
-# Confirms every seeded change found under /tmp/mut/*/mutants/m*/ independently (see tools/confirm.sh) and
-# appends one line per mutant to $OUT: id result-without result-with suite
+# tools/confirm_all.sh <mutant dir>...   (default: every /tmp/mut/*/mutants/m*)
+# Confirms each seeded change independently in a scratch worktree of /repo HEAD: the demonstration passes without
+# the change, fails with it, and the repository's own suite passes with it.  One line per mutant in $OUT.
 export GOFLAGS=-mod=mod GOPROXY=off GOSUMDB=off
 OUT=${OUT:-/tmp/mut/confirm.log}
-spec() { # dir pkg pattern [tags] [timeout]
-  d=/tmp/mut/$1; pkg=$2; pat=$3; tags=$4; to=${5:-300}
+spec() { d=$1; to=${2:-400}
   wt=/tmp/ecalverif-confirm.$$.$RANDOM
   git -C /repo worktree add -q "$wt" HEAD || return
+  pkgs=""; pat=""; tags=""
   for f in $d/*_test.go $d/*_test.go.txt $d/_*_test.go; do
     [ -f "$f" ] || continue
     b=$(basename "$f"); b=${b%.txt}; b=${b#_}
-    # choose the package directory from the package clause
     p=$(grep -m1 '^package ' "$f" | awk '{print $2}')
-    case "$p" in pool) dest=engine/pool;; engine) dest=engine;; parser) dest=parser;; interpreter) dest=interpreter;; scope) dest=scope;; util) dest=util;; *) dest=$pkg;; esac
+    case "$p" in pool) dest=engine/pool;; engine|engine_test) dest=engine;; parser|parser_test) dest=parser;; interpreter|interpreter_test) dest=interpreter;; scope) dest=scope;; util) dest=util;; *) dest=interpreter;; esac
     cp "$f" "$wt/$dest/zz_$b"
+    case " $pkgs " in *" ./$dest/ "*) ;; *) pkgs="$pkgs ./$dest/";; esac
+    for t in $(grep -o '^func Test[A-Za-z0-9_]*' "$f" | awk '{print $2}'); do pat="${pat:+$pat|}^$t\$"; done
+    grep -q 'c09demo' "$f" && tags="-tags c09demo"
   done
-  tg=""; [ -n "$tags" ] && tg="-tags $tags"
-  run() { (cd "$wt" && timeout $((to+60)) go test -count=1 $tg -timeout ${to}s -run "$pat" $pkg >/tmp/mut/demo.$$.out 2>&1; echo $?); }
+  run() { (cd "$wt" && timeout $((to+60)) go test -count=1 $tags -timeout ${to}s -run "$pat" $pkgs >/tmp/mut/demo.$$.out 2>&1; echo $?); }
   r0=$(run)
-  (cd "$wt" && git apply "$d/patch.diff") || { echo "$1 PATCH-DOES-NOT-APPLY" >> $OUT; git -C /repo worktree remove --force "$wt"; return; }
-  r1=$(run); tail -3 /tmp/mut/demo.$$.out | tr '\n' ' ' | cut -c1-200 > /tmp/mut/demo.$$.tail
-  rm -f "$wt"/*/zz_*_test.go "$wt"/engine/pool/zz_*_test.go
+  (cd "$wt" && git apply "$d/patch.diff") || { echo "$d PATCH-DOES-NOT-APPLY" >> $OUT; git -C /repo worktree remove --force "$wt"; return; }
+  r1=$(run); tail -3 /tmp/mut/demo.$$.out | tr '\n' ' ' | cut -c1-160 > /tmp/mut/demo.$$.tail
+  find "$wt" -name 'zz_*_test.go' -delete
   suite=$(cd "$wt" && go test -count=1 ./... 2>&1 | grep -v "no test files" | grep -v "^ok" | grep -E "^(FAIL|---|panic)" | tr '\n' ' ' | cut -c1-200)
-  echo "$1 demo_without_exit=$r0 demo_with_exit=$r1 suite_failures=[${suite}] with_tail=[$(cat /tmp/mut/demo.$$.tail)]" >> $OUT
+  echo "$d demo_without_exit=$r0 demo_with_exit=$r1 suite_failures=[${suite}] pattern=[$pat] with_tail=[$(cat /tmp/mut/demo.$$.tail)]" >> $OUT
   git -C /repo worktree remove --force "$wt"
 }
 : > $OUT
-spec C01a/mutants/m1 ./engine/ TestC01M1
-spec C01a/mutants/m2 ./engine/ TestC01M2
-spec C01a/mutants/m3 ./engine/ TestC01M3
-spec C02a/mutants/m1 ./engine/ TestC02M1
-spec C02a/mutants/m2 ./engine/ TestC02M2
-spec C02a/mutants/m3 ./engine/ TestC02M3 "" 600
-spec C07a/mutants/m1 ./parser/ TestC07M1
-spec C07a/mutants/m2 "./parser/ ./interpreter/" TestC07M2
-spec C07a/mutants/m3 ./parser/ TestC07M3
-spec C09a/mutants/m1 ./engine/pool/ TestC09M1 c09demo 120
-spec C09a/mutants/m2 ./engine/pool/ TestC09M2 c09demo 120
-spec C09a/mutants/m3 ./engine/pool/ TestC09M3 c09demo 180
-spec C10a/mutants/m1 ./engine/ TestC10M1
-spec C10a/mutants/m2 ./engine/ TestC10M2
-spec C10a/mutants/m3 "./engine/ ./interpreter/" TestC10M3
-spec C11a/mutants/m1 ./interpreter/ TestC11M1
-spec C11a/mutants/m2 ./interpreter/ TestC11M2
-spec C11a/mutants/m3 ./interpreter/ TestC11M3 "" 600
-spec C12a/mutants/m1 ./interpreter/ TestC12M1
-spec C12a/mutants/m2 ./interpreter/ TestC12M2
-spec C12a/mutants/m3 ./interpreter/ TestC12M3
-spec C13a/mutants/m1 ./interpreter/ TestC13M1
-spec C13a/mutants/m2 ./parser/ TestC13M2
-spec C13a/mutants/m3 ./parser/ TestC13M3
-spec C15a/mutants/m1 ./interpreter/ TestMutantM1
-spec C15a/mutants/m2 ./interpreter/ TestMutantM2
-spec C15a/mutants/m3 ./interpreter/ TestMutantM3
-spec C16a/mutants/m1 ./interpreter/ TestC16M1
-spec C16a/mutants/m2 ./interpreter/ TestC16M2
-spec C16a/mutants/m3 ./interpreter/ TestC16M3
+if [ $# -eq 0 ]; then set -- /tmp/mut/*/mutants/m*; fi
+for d in "$@"; do [ -f "$d/patch.diff" ] && spec "$d"; done
 echo DONE >> $OUT
